@@ -360,6 +360,12 @@ def _run_case(case):
                      M=case.get('M'), retry=case.get('retry', 0), keep_alive=bool(case.get('keep_alive')),
                      errors_map=case.get('errors_map'))
     code = o.resp.code
+    e2 = o.seen.pop('retry_exc', None)
+    o.seen.pop('retry_copy_exc', None)
+    if e2 is not None and not hasattr(e2, 'status_code') and type(e2).__name__ != 'SimHang':
+        violation(res, f'C12:5xx:{type(e2).__name__}@retry',
+                  f'touching the body again after it was refused raised {type(e2).__name__} (not the configured client error): '
+                  f'an unhandled server fault for any application that does so')
     log('status', o.resp.status, 'calls', o.stream.n_calls, 'seen', digest(o.seen))
     exc = o.handler_exc
     if o.hang is not None:
